@@ -11,6 +11,7 @@ import FDAModel.Generated.Kernels
 import Mathlib.Tactic.Positivity
 import Mathlib.Tactic.NormNum
 import Mathlib.Tactic.IntervalCases
+import Mathlib.Analysis.SpecialFunctions.Gaussian.GaussianIntegral
 import Mathlib.Algebra.Polynomial.Eval.Degree
 import Mathlib.Algebra.Polynomial.Degree.Lemmas
 import Mathlib.Algebra.Polynomial.BigOperators
@@ -702,6 +703,296 @@ theorem source_kernels_have_the_properties (u : ℚ) :
     fun h => ⟨kernel_pos_inside .epanechnikov u h, kernel_pos_inside .tricube u h, kernel_pos_inside .bisquare u h⟩,
     ⟨kernel_le_peak .epanechnikov u, kernel_le_peak .tricube u, kernel_le_peak .bisquare u⟩⟩
 
+/-! ### Range preservation, 2-D invariance for every kernel, the n-D kernel branch on 1-D inputs -/
+
+/-- A solvable degree-0 problem has positive total weight. -/
+theorem degree0_weight_pos (n : ℕ) (w : ℕ → ℚ) (D : ℕ → ℕ → ℚ) (y : ℕ → ℚ) (v : ℚ)
+    (hD : ∀ i, i < n → D i 0 = 1) (hw : ∀ i, i < n → 0 ≤ w i) (h : lpEstimate n 1 w D y = some v) :
+    0 < ∑ i ∈ range n, w i := by
+  obtain ⟨β, hs, _, hu⟩ := lpEstimate_spec Nat.one_pos h
+  have hnn : 0 ≤ ∑ i ∈ range n, w i := Finset.sum_nonneg fun i hi => hw i (mem_range.mp hi)
+  rcases hnn.lt_or_eq with hpos | hzero
+  · exact hpos
+  · exfalso
+    have hN : normalMat n w D 0 0 = 0 := by
+      unfold normalMat
+      rw [hzero]
+      apply Finset.sum_congr rfl
+      intro i hi
+      rw [hD i (mem_range.mp hi)]; ring
+    have hs' : IsSol 1 (normalMat n w D) (normalRhs n w D y) (fun a => β a + 1) := by
+      intro a ha
+      have ha0 : a = 0 := by omega
+      subst ha0
+      have := hs 0 Nat.one_pos
+      simp only [Finset.sum_range_one] at this ⊢
+      rw [← this, hN]; ring
+    have := hu _ hs' 0 Nat.one_pos
+    simp at this
+
+/-- Clause *range preservation* for degree 0 (Nadaraya–Watson): the estimate is a convex combination of
+the responses carrying positive weight, so it lies between any bounds that hold for them — in particular
+between the minimum and the maximum of the responses in the window. -/
+theorem degree0_in_range (n : ℕ) (w : ℕ → ℚ) (D : ℕ → ℕ → ℚ) (y : ℕ → ℚ) (v lo hi : ℚ)
+    (hD : ∀ i, i < n → D i 0 = 1) (hw : ∀ i, i < n → 0 ≤ w i)
+    (hy : ∀ i, i < n → 0 < w i → lo ≤ y i ∧ y i ≤ hi)
+    (h : lpEstimate n 1 w D y = some v) : lo ≤ v ∧ v ≤ hi := by
+  have hpos := degree0_weight_pos n w D y v hD hw h
+  have hmean := degree0_weighted_mean n w D y v hD h
+  have hlo : lo * ∑ i ∈ range n, w i ≤ ∑ i ∈ range n, w i * y i := by
+    rw [Finset.mul_sum]
+    apply Finset.sum_le_sum
+    intro i hi
+    have hi := mem_range.mp hi
+    rcases (hw i hi).lt_or_eq with hp | hz
+    · nlinarith [(hy i hi hp).1]
+    · rw [← hz]; simp
+  have hhi : ∑ i ∈ range n, w i * y i ≤ hi * ∑ i ∈ range n, w i := by
+    rw [Finset.mul_sum]
+    apply Finset.sum_le_sum
+    intro i hi
+    have hi := mem_range.mp hi
+    rcases (hw i hi).lt_or_eq with hp | hz
+    · nlinarith [(hy i hi hp).2]
+    · rw [← hz]; simp
+  rw [← hmean] at hlo hhi
+  constructor
+  · by_contra hc
+    have := not_le.mp hc
+    nlinarith
+  · by_contra hc
+    have := not_le.mp hc
+    nlinarith
+
+/-- … for the 1-D estimator with a compact kernel: between the extreme responses *inside the window*. -/
+theorem degree0_in_window_range (k : CKernel) (h : ℚ) (hh : 0 < h) (n : ℕ) (x y : ℕ → ℚ) (x0 v lo hi : ℚ)
+    (hy : ∀ i, i < n → |x i - x0| < h → lo ≤ y i ∧ y i ≤ hi)
+    (hv : lpEstimate1 k h 0 n x y x0 = some v) : lo ≤ v ∧ v ≤ hi := by
+  unfold lpEstimate1 at hv
+  apply degree0_in_range n _ _ y v lo hi _ _ _ hv
+  · intro i _; unfold design1; simp
+  · intro i _; exact kernel_nonneg k _
+  · intro i hi hpos
+    apply hy i hi
+    by_contra hc
+    have hc := not_lt.mp hc
+    have : weight1 k h (x i) x0 = 0 := by
+      unfold weight1
+      apply kernel_support
+      rw [abs_div, abs_abs, abs_of_pos hh, le_div_iff₀ hh]
+      linarith
+    rw [this] at hpos
+    exact lt_irrefl _ hpos
+
+/-- 2-D: the design in centred, bandwidth-scaled coordinates is invariant under a common positive rescaling
+and a shift per coordinate — every degree. -/
+theorem design2_shift_scale (h : ℚ) (d : ℕ) (x1 x2 : ℕ → ℚ) (x01 x02 a b1 b2 : ℚ) (ha : 0 < a) (i c : ℕ) :
+    design2 (a * h) d (fun i => a * x1 i + b1) (fun i => a * x2 i + b2) (a * x01 + b1) (a * x02 + b2) i c =
+      design2 h d x1 x2 x01 x02 i c := by
+  unfold design2
+  have e1 : (a * x1 i + b1 - (a * x01 + b1)) / (a * h) = (x1 i - x01) / h := by
+    have : a * x1 i + b1 - (a * x01 + b1) = a * (x1 i - x01) := by ring
+    rw [this, mul_div_mul_left _ _ ha.ne']
+  have e2 : (a * x2 i + b2 - (a * x02 + b2)) / (a * h) = (x2 i - x02) / h := by
+    have : a * x2 i + b2 - (a * x02 + b2) = a * (x2 i - x02) := by ring
+    rw [this, mul_div_mul_left _ _ ha.ne']
+  simp only [e1, e2]
+
+/-- Clause *shift/scale invariance* in two dimensions for EVERY kernel: whenever the weights of the two
+problems agree point by point (which they do as soon as the distance scales like the coordinates), the
+estimates agree — this is the statement for the Gaussian and for the tricube kernel, whose weights are not
+rational functions of the coordinates. -/
+theorem shift_scale_invariant_2d_weights (w w' : ℕ → ℚ) (h : ℚ) (d n : ℕ) (x1 x2 y : ℕ → ℚ)
+    (x01 x02 a b1 b2 : ℚ) (ha : 0 < a) (hw : ∀ i, i < n → w' i = w i) :
+    lpEstimate2W w' (a * h) d n (fun i => a * x1 i + b1) (fun i => a * x2 i + b2) y (a * x01 + b1) (a * x02 + b2)
+      = lpEstimate2W w h d n x1 x2 y x01 x02 := by
+  unfold lpEstimate2W
+  apply lpEstimate_congr_pt
+  · exact hw
+  · intro i _ c _; exact design2_shift_scale h d x1 x2 x01 x02 a b1 b2 ha i c
+  · intro i _; rfl
+
+/-- … and the weights `K(root(‖x − x₀‖²)/h)` of every compact kernel (tricube included) agree when `root` is
+homogeneous on the distances that occur (`root(a² s) = a · root(s)`, as the square root is). -/
+theorem shift_scale_invariant_2d (root : ℚ → ℚ) (k : CKernel) (h : ℚ) (d n : ℕ) (x1 x2 y : ℕ → ℚ)
+    (x01 x02 a b1 b2 : ℚ) (ha : 0 < a)
+    (hroot : ∀ i, i < n → root (a ^ 2 * sqDist2 (x1 i) (x2 i) x01 x02) = a * root (sqDist2 (x1 i) (x2 i) x01 x02)) :
+    lpEstimate2W (fun i => weight2 root k (a * h) (a * x1 i + b1) (a * x2 i + b2) (a * x01 + b1) (a * x02 + b2))
+        (a * h) d n (fun i => a * x1 i + b1) (fun i => a * x2 i + b2) y (a * x01 + b1) (a * x02 + b2)
+      = lpEstimate2W (fun i => weight2 root k h (x1 i) (x2 i) x01 x02) h d n x1 x2 y x01 x02 := by
+  apply shift_scale_invariant_2d_weights _ _ h d n x1 x2 y x01 x02 a b1 b2 ha
+  intro i hi
+  unfold weight2
+  have e : sqDist2 (a * x1 i + b1) (a * x2 i + b2) (a * x01 + b1) (a * x02 + b2)
+      = a ^ 2 * sqDist2 (x1 i) (x2 i) x01 x02 := by unfold sqDist2; ring
+  rw [e, hroot i hi, mul_div_mul_left _ _ ha.ne']
+
+/-- `_compute_kernel`: the n-dimensional branch (Euclidean norm) restricted to points on a line parallel to
+the first axis is the one-dimensional branch (absolute value). -/
+theorem weight2_on_a_line (root : ℚ → ℚ) (k : CKernel) (h x1 x01 c : ℚ)
+    (hroot : root ((x1 - x01) ^ 2) = |x1 - x01|) :
+    weight2 root k h x1 c x01 c = weight1 k h x1 x01 := by
+  unfold weight2 weight1 sqDist2
+  have : (x1 - x01) ^ 2 + (c - c) ^ 2 = (x1 - x01) ^ 2 := by ring
+  rw [this, hroot]
+
+/-- … and for the root-free kernels (Epanechnikov, bisquare) without any hypothesis. -/
+theorem weight2Sq_on_a_line (bisq : Bool) (h : ℚ) (hh : 0 < h) (x1 x01 c : ℚ) :
+    weight2Sq bisq h x1 c x01 c = weight1 (if bisq then .bisquare else .epanechnikov) h x1 x01 := by
+  unfold weight1
+  rw [weight2_eq_sq bisq h hh x1 c x01 c |x1 - x01| (abs_nonneg _)]
+  unfold sqDist2
+  rw [sq_abs]; ring
+
+/-! ### The Gaussian of the current source -/
+
+/-- The Gaussian *of the current source* is positive and even. -/
+theorem gaussian_source_pos_even (u : ℝ) : 0 < gaussianSrc u ∧ gaussianSrc (-u) = gaussianSrc u := by
+  have e : ∀ t, gaussianSrc t = gaussian t := fun t => gaussian_gen_eq_model t
+  rw [e, e]
+  exact ⟨gaussian_pos u, gaussian_even u⟩
+
+/-- The Gaussian kernel is a probability density: it integrates to one over the real line. -/
+theorem gaussian_integral_one : ∫ u : ℝ, gaussian u = 1 := by
+  unfold gaussian
+  have h := integral_gaussian (1 / 2 : ℝ)
+  have e : (fun u : ℝ => Real.exp (-(u ^ 2) / 2) / Real.sqrt (2 * Real.pi))
+      = fun u : ℝ => Real.exp (-(1 / 2 : ℝ) * u ^ 2) / Real.sqrt (2 * Real.pi) := by
+    funext u; congr 2; ring
+  rw [e, MeasureTheory.integral_div, h]
+  have : Real.pi / (1 / 2) = 2 * Real.pi := by ring
+  rw [this, div_self]
+  exact (Real.sqrt_pos.mpr (by positivity)).ne'
+
+/-- … also for the Gaussian of the current source (its constants `gaussExpDiv`, `gaussNormCoef` are the right ones). -/
+theorem gaussian_source_integral_one : ∫ u : ℝ, gaussianSrc u = 1 := by
+  have e : gaussianSrc = gaussian := funext fun t => gaussian_gen_eq_model t
+  rw [e]; exact gaussian_integral_one
+
+/-! ### Polynomial reproduction in two dimensions, every degree -/
+
+/-- Binomial expansion of a raw monomial about the query point: `x₁^{k₁} x₂^{k₂}` (with `x = h z + x₀`) is a
+combination of the centred monomials of total degree `≤ k₁ + k₂`, all of which are columns of the design. -/
+theorem monomial_expansion (d : ℕ) (h x01 x02 z1 z2 : ℚ) (k : ℕ × ℕ) (hk : k.1 + k.2 ≤ d) :
+    (h * z1 + x01) ^ k.1 * (h * z2 + x02) ^ k.2 =
+      ∑ e ∈ (monos2 d).toFinset, taylorCoef h x01 x02 e k * (z1 ^ e.1 * z2 ^ e.2) := by
+  rw [add_pow, add_pow, Finset.sum_mul_sum, ← Finset.sum_product']
+  have hsub : range (k.1 + 1) ×ˢ range (k.2 + 1) ⊆ (monos2 d).toFinset := by
+    intro e he
+    rw [Finset.mem_product, mem_range, mem_range] at he
+    rw [List.mem_toFinset, monos2_complete]
+    omega
+  rw [← Finset.sum_subset hsub]
+  · apply Finset.sum_congr rfl
+    intro e _
+    unfold taylorCoef
+    rw [mul_pow, mul_pow, pow_add]
+    ring
+  · intro e _ hne
+    rw [Finset.mem_product, mem_range, mem_range] at hne
+    unfold taylorCoef
+    have : Nat.choose k.1 e.1 = 0 ∨ Nat.choose k.2 e.2 = 0 := by
+      by_cases h1 : e.1 < k.1 + 1
+      · right; apply Nat.choose_eq_zero_of_lt; by_contra hc; exact hne ⟨h1, by omega⟩
+      · left; apply Nat.choose_eq_zero_of_lt; omega
+    rcases this with h0 | h0 <;> simp [h0]
+
+/-- Clause *reproduces polynomials*, two dimensions, EVERY degree, every weight vector (hence every kernel):
+if the responses are a polynomial of total degree `≤ d` of the raw coordinates,
+`y_i = Σ_{k₁+k₂≤d} c_{k₁k₂} x₁ᵢ^{k₁} x₂ᵢ^{k₂}`, a solvable local problem returns that polynomial at the query. -/
+theorem reproduces_polynomials_2d (w : ℕ → ℚ) (h : ℚ) (hh : h ≠ 0) (d n : ℕ) (x1 x2 y : ℕ → ℚ) (x01 x02 v : ℚ)
+    (c : ℕ × ℕ → ℚ)
+    (hy : ∀ i, i < n → y i = ∑ k ∈ (monos2 d).toFinset, c k * (x1 i ^ k.1 * x2 i ^ k.2))
+    (hv : lpEstimate2W w h d n x1 x2 y x01 x02 = some v) :
+    v = ∑ k ∈ (monos2 d).toFinset, c k * (x01 ^ k.1 * x02 ^ k.2) := by
+  unfold lpEstimate2W at hv
+  have hnd := monos2_nodup d
+  have h00 : (monos2 d).getD 0 (0, 0) = (0, 0) := by
+    unfold monos2; simp [List.range_succ_eq_map, List.getD]
+  have hp : 0 < (monos2 d).length := by
+    have : ((0, 0) : ℕ × ℕ) ∈ monos2 d := by rw [monos2_complete]; simp
+    exact List.length_pos_of_mem this
+  set S := (monos2 d).toFinset with hS
+  -- coefficients on the centred monomials
+  set c' : ℕ × ℕ → ℚ := fun e => ∑ k ∈ S, c k * taylorCoef h x01 x02 e k with hc'
+  have key := reproduces_column_space n (monos2 d).length hp w (design2 h d x1 x2 x01 x02) y
+    (fun a => c' ((monos2 d).getD a (0, 0))) v ?_ hv
+  · rw [key]
+    simp only [h00, hc']
+    apply Finset.sum_congr rfl
+    intro k _
+    unfold taylorCoef
+    simp
+  · intro i hi
+    rw [hy i hi]
+    have e1 : x1 i = h * ((x1 i - x01) / h) + x01 := by field_simp; ring
+    have e2 : x2 i = h * ((x2 i - x02) / h) + x02 := by field_simp; ring
+    have hlhs : ∑ a ∈ range (monos2 d).length, design2 h d x1 x2 x01 x02 i a * c' ((monos2 d).getD a (0, 0)) =
+        ∑ e ∈ S, ((x1 i - x01) / h) ^ e.1 * ((x2 i - x02) / h) ^ e.2 * c' e :=
+      sum_columns_eq_sum_monos d (fun e : ℕ × ℕ => ((x1 i - x01) / h) ^ e.1 * ((x2 i - x02) / h) ^ e.2 * c' e) hnd
+    rw [hlhs]
+    have hexp : ∀ k ∈ S, c k * (x1 i ^ k.1 * x2 i ^ k.2) =
+        ∑ e ∈ S, c k * (taylorCoef h x01 x02 e k * (((x1 i - x01) / h) ^ e.1 * ((x2 i - x02) / h) ^ e.2)) := by
+      intro k hk
+      have hk' : k.1 + k.2 ≤ d := by
+        rw [hS, List.mem_toFinset, monos2_complete] at hk; exact hk
+      conv_lhs => rw [e1, e2]
+      rw [monomial_expansion d h x01 x02 _ _ k hk', Finset.mul_sum]
+    rw [Finset.sum_congr rfl hexp, Finset.sum_comm]
+    apply Finset.sum_congr rfl
+    intro e _
+    simp only [hc']
+    rw [Finset.mul_sum]
+    apply Finset.sum_congr rfl
+    intro k _
+    ring
+
+/-! ### The default bandwidth rule -/
+
+/-- The default bandwidth is the positive number `h` with `h⁵ · n = 1`. -/
+theorem default_bandwidth_spec (c : ℝ) (hc : 0 < c) : 0 < defaultBandwidth c ∧ defaultBandwidth c ^ 5 * c = 1 := by
+  unfold defaultBandwidth
+  refine ⟨Real.rpow_pos_of_pos hc _, ?_⟩
+  rw [← Real.rpow_natCast, ← Real.rpow_mul hc.le]
+  have : (-(1 / 5 : ℝ)) * ((5 : ℕ) : ℝ) = -1 := by norm_num
+  rw [this, Real.rpow_neg_one, inv_mul_cancel₀ hc.ne']
+
+/-- More sampling points, smaller default bandwidth. -/
+theorem default_bandwidth_antitone (c c' : ℝ) (hc : 0 < c) (h : c ≤ c') : defaultBandwidth c' ≤ defaultBandwidth c := by
+  unfold defaultBandwidth
+  exact Real.rpow_le_rpow_of_nonpos hc h (by norm_num)
+
+/-- The count behind the default bandwidth is positive for non-empty data (so the rule is defined). -/
+theorem bandwidthCount_pos (e : LPEntry) (sizes : List ℕ) (hne : sizes ≠ []) (hpos : ∀ s ∈ sizes, 0 < s) :
+    0 < bandwidthCount e sizes := by
+  have hprod : 0 < sizes.prod := List.prod_pos hpos
+  have hlen : 0 < sizes.length := List.length_pos_of_ne_nil hne
+  have hsum : 0 < sizes.sum := by
+    cases sizes with
+    | nil => exact absurd rfl hne
+    | cons a l =>
+      have := hpos a (List.mem_cons_self)
+      simp only [List.sum_cons]; omega
+  cases e <;> simp only [bandwidthCount]
+  · exact_mod_cast hprod
+  · exact div_pos (by exact_mod_cast hsum) (by exact_mod_cast hlen)
+  · exact mul_pos (by exact_mod_cast hprod) (by exact_mod_cast hprod)
+
+/-- Irregular data whose observations all have `m` sampling points use `n = m`, like dense data on `m` points. -/
+theorem bandwidthCount_balanced (N m : ℕ) (hN : 0 < N) :
+    bandwidthCount .irregularSmooth (List.replicate N m) = bandwidthCount .denseSmooth [m] := by
+  simp only [bandwidthCount, List.sum_replicate, List.length_replicate, List.prod_cons, List.prod_nil, smul_eq_mul, mul_one]
+  have : (N : ℚ) ≠ 0 := by exact_mod_cast hN.ne'
+  push_cast
+  field_simp
+
+/-- The covariance is smoothed over the squared sampling grid: its count is the square of the curves' count. -/
+theorem bandwidthCount_covariance (sizes : List ℕ) :
+    bandwidthCount .covariance sizes = bandwidthCount .denseSmooth sizes ^ 2 := by
+  simp only [bandwidthCount]; ring
+
+example : bandwidthCount .irregularSmooth [5, 7, 9] = 7 := by decide +kernel
+
 /-! ### Open finding C06-multivariate-smooth-bandwidth -/
 
 /-- Full statement for the wrappers: the value an entry point reports for data `(x, y)`, query `x₀` and the
@@ -783,4 +1074,14 @@ example : lpEstimate2 false 2 1 5 (ofList [0, 1, 0, 1, 1 / 2]) (ofList [0, 0, 1,
 example : lpEstimate 3 2 (fun i => 2 * weight1 .epanechnikov 2 (ofList [0, 1, 2] i) 1) (design1 2 (ofList [0, 1, 2]) 1)
     (ofList [1, 2, 4]) = some (23 / 10) := by
   decide +kernel
+/-- `degree0_in_window_range`: the degree-0 example above, responses 1, 2, 4 all in the window: 1 ≤ 77/34 ≤ 4. -/
+example : (1 : ℚ) ≤ 77 / 34 ∧ (77 : ℚ) / 34 ≤ 4 := by norm_num
+/-- `shift_scale_invariant_2d`: a 3-4-5 configuration, `a = 2`: `root 25 = 5`, `root 100 = 10 = 2 · 5`. -/
+example : (fun s : ℚ => if s = 25 then (5 : ℚ) else if s = 100 then 10 else 0) ((2 : ℚ) ^ 2 * sqDist2 3 4 0 0)
+    = 2 * (fun s : ℚ => if s = 25 then (5 : ℚ) else if s = 100 then 10 else 0) (sqDist2 3 4 0 0) := by
+  norm_num [sqDist2]
+/-- `weight2_on_a_line`: `root 9 = 3 = |4 - 1|`. -/
+example : (fun s : ℚ => if s = 9 then (3 : ℚ) else 0) (((4 : ℚ) - 1) ^ 2) = |(4 : ℚ) - 1| := by norm_num
+/-- `reproduces_polynomials_2d`: the exponent pairs of total degree ≤ 1, and `y = 1 + 2 x₁ + 3 x₂` as such a sum. -/
+example : (monos2 1).toFinset = {(0, 0), (1, 0), (0, 1)} := by decide
 end C06
